@@ -10,7 +10,11 @@ def NEXTC(ctx='ctx', noeff=True):
 REJ = f'hcN[0] == {K} && err != nil && newCtx == ctx'
 S = 'single(payload(tx))'
 SIG = '(ctx sdk.Context, tx sdk.Tx, simulate bool, next sdk.AnteHandler) (newCtx sdk.Context, err error)'
+REQTX = '//@   requires tx != nil && txUnpacked(payload(tx))'
+def PAN(extra=''):
+    return '//@   panics[C20.own_code_panics] only_if hcPanics[hcN[0]]' + extra
 FROM = 'bech32Bytes(ethMsgOf(payload(tx)).From)'
+B = 'bytes(ethMsgOf(payload(tx)).MarshalledTx)'
 out = f'''//go:build verif
 
 // Contracts for the deductive verifier in /verif (govc). This file contains no code: with the
@@ -23,25 +27,66 @@ package evmlane
 // 03e: EVM-lane only. Cosmos lane: straight to the continuation, nothing touched. Ethereum lane: continues only for a
 // non-empty sender address whose account has no contract code (an externally owned account).
 //@ func (ead ELValidateBasicEoaDecorator) AnteHandle{SIG}
+{REQTX}
 //@   modifies everything
+// own panics: msg.From is not bech32 (excluded by 03: msg.ValidateBasic)
+{PAN(f' || ({S} && !bech32Valid(ethMsgOf(payload(tx)).From))')}
 //@   ensures[C07.cosmos_passes] !{S} ==> ({NEXTC()})
 //@   ensures[C07.eth_next_or_reject] {S} ==> (({NEXTC()}) || ({REJ}))
 //@   ensures[C06.sender_is_eoa] ({S} && hcN[0] == {K} + 1) ==> old(isEmptyCodeHash(evmCodeHash[layer(ctx)][{FROM}]))
 
-// 991e: EVM-lane only. Cosmos lane: straight to the continuation with the same context. (The Ethereum-lane half is
-// Keeper.SetupExecutionContext, which belongs to the x/evm keeper contracts (C05/C13) and is not summarised here.)
+// 991e: EVM-lane only. Cosmos lane: straight to the continuation with the same context. Ethereum lane: the continuation runs
+// on the context prepared by Keeper.SetupExecutionContext (x/evm/keeper/verif_contracts_ante.go) — same store layer, event manager
+// and header — and sees the tx counter advanced by one, the tx's whole gas limit recorded as its gas used and a placeholder receipt
+// stored under the new index, so that every counted tx has a receipt (receipts stay dense).
 //@ func (sed ELSetupExecutionDecorator) AnteHandle{SIG}
+{REQTX}
 //@   modifies everything
+{PAN()}
+//@   requires {S} ==> (trCount[layer(ctx)] + 1 < pow2(64) && txDecodable({B}) && decType({B}) <= 2)
 //@   ensures[C07.cosmos_passes] !{S} ==> ({NEXTC()})
+//@   ensures[C07.eth_continues,C13.eth_continues] {S} ==> ({NEXTC(None)} && layer(hcCtx[{K}]) == layer(ctx) && hdr(hcCtx[{K}]) == hdr(ctx) && mode(hcCtx[{K}]) == mode(ctx))
+//@   ensures[C13.eth_counter_and_gas,C05.eth_counter_and_gas] {S} ==> (hcSawTrCount[{K}] == old(trCount[layer(ctx)]) + 1 && hcSawTrGas[{K}] == old(trGas[layer(ctx)][trCount[layer(ctx)] := decGas({B})]) && hcSawHasReceipt[{K}] == old(trHasReceipt[layer(ctx)][trCount[layer(ctx)] := true]))
+//@   ensures[C13.eth_receipts_dense] ({S} && (forall i int :: (0 <= i && i < old(trCount[layer(ctx)])) ==> old(trHasReceipt[layer(ctx)][i]))) ==> (forall i int :: (0 <= i && i < hcSawTrCount[{K}]) ==> hcSawHasReceipt[{K}][i])
+//@   ensures[C13.eth_flags_untouched] {S} ==> ({NOEFF})
 
-// 992e: EVM-lane only. Cosmos lane: straight to the continuation, no event.
+// 992e: EVM-lane only. Cosmos lane: straight to the continuation, no event. Ethereum lane: exactly one event is emitted, on the
+// event manager of ctx, before the continuation runs: type ethereum_tx, carrying the hash of the embedded transaction and its index
+// in the block = (tx counter - 1), the same index under which 991e stored the placeholder receipt (arg1: the event handed to EmitEvent).
+//@ import evmtypes "github.com/EscanBE/evermint/v12/x/evm/types"
+//@ import strconv "strconv"
 //@ func (eed ELEmitEventDecorator) AnteHandle{SIG}
+{REQTX}
 //@   modifies everything
+// own panics: the embedded bytes do not decode (excluded by 03)
+{PAN(f' || ({S} && !txDecodable({B}))')}
 //@   ensures[C07.cosmos_passes] !{S} ==> ({NEXTC()})
-//@   ensures[C07.eth_continues] {S} ==> ({NEXTC()})
+//@   ensures[C07.eth_continues,C13.eth_continues] {S} ==> ({NEXTC()})
+//@   at call types.EventManagerI.EmitEvent@1 assert[C13.ante_event_on_ctx_manager] recv == ctx.EventManager() && single(payload(tx))
+//@   at call types.EventManagerI.EmitEvent@1 assert[C13.ante_event_shape] arg1.Type == evmtypes.EventTypeEthereumTx && len(arg1.Attributes) == 2 && arg1.Attributes[0].Key == evmtypes.AttributeKeyEthereumTxHash && arg1.Attributes[1].Key == evmtypes.AttributeKeyTxIndex
+//@   at call types.EventManagerI.EmitEvent@1 assert[C13.ante_event_tx_index] arg1.Attributes[1].Value == strconv.FormatUint(max(1, trCount[layer(ctx)]) - 1, 10)
+//@   at call types.EventManagerI.EmitEvent@1 assert[C13.ante_event_tx_hash] arg1.Attributes[0].Value == decHash({B}).Hex()
 
-// 993e (ELExecWithoutErrorDecorator) is NOT under contract here: `&ed.ek` (an interior pointer) is converted to the EvmKeeper
-// interface for NewStateDB, which the verifier's memory model does not support, and the trial execution needs the state
-// transition preconditions of x/evm/keeper (C08 territory). Its lane guard is the same two lines as in the decorators above.
+// 993e: the trial execution runs only for an Ethereum-lane tx in CheckTx / ReCheckTx / simulation; in every other case the
+// decorator goes straight to the continuation and touches nothing. The trial itself runs on a CacheContext branch whose write
+// function is dropped: when the continuation is called, every layered component of the world seen through ctx (balances, supply,
+// accounts, x/evm and fee-market params, per-block bookkeeping, flags: prelude/40_statedb_context.spec) and ctx's event list are what
+// they were on entry (C08: the trial execution is side-effect free).
+// requires: the stored fee-market params are valid (x/feemarket SetParams: base fee present), as for the fee checkers.
+//@ func (ed ELExecWithoutErrorDecorator) AnteHandle{SIG}
+//@   requires !fmBaseFeeNil[layer(ctx)]
+// (the x/evm keeper is wired: its precompile keeper has a store key and a codec — precondition of Keeper.NewEVM)
+//@   requires ed.ek.cpcKeeper.storeKey != nil && ed.ek.cpcKeeper.cdc != nil
+{REQTX}
+//@   modifies everything
+// (no C20 clause: Keeper.NewEVM — verified for C17 — is specified `panics any`; the trial path's other panic sites are the explicit
+// panic(err) after AsMessage and nil accounts, all excluded by 03 / 07 / 11 / 12)
+//@   ensures[C07.cosmos_passes,C08.cosmos_passes] !{S} ==> ({NEXTC()})
+//@   ensures[C07.deliver_passes,C08.deliver_passes] (!ctx.IsCheckTx() && !ctx.IsReCheckTx() && !simulate) ==> ({NEXTC()})
+//@   ensures[C08.trial_next_or_reject] (({NEXTC(None)} && hcCtx[{K}] == ctx) || ({REJ}))
+//@   at call dyncall@1 assert[C08.view_unchanged_at_next] viewEqOld(layer(ctx), layer(ctx))
+//@   at call dyncall@2 assert[C08.view_unchanged_at_next] viewEqOld(layer(ctx), layer(ctx))
+//@   at call dyncall@3 assert[C08.view_unchanged_at_next_after_trial] viewEqOld(layer(ctx), layer(ctx)) && evlog[payload(ctx.EventManager())] == old(evlog[payload(ctx.EventManager())])
+//@   ensures[C08.trial_world_unchanged] hcN[0] == {K} + 1 ==> ({NOEFF} && hcSawTrCount[{K}] == old(trCount[layer(ctx)]) && hcSawTrGas[{K}] == old(trGas[layer(ctx)]) && hcSawHasReceipt[{K}] == old(trHasReceipt[layer(ctx)]))
 '''
 open('/tmp/w/ante/repo/app/antedl/evmlane/verif_contracts.go','w').write(out)
